@@ -393,6 +393,7 @@ func (e *c02env) evm(name string, nonce uint64, to *ethcom.Address, value int64,
 }
 
 func c02newEnv() *c02env {
+	vSoloConfig(vAcct(0)) // EVM chain id etc. must be in place before EIP-155 transactions are signed
 	e := &c02env{shapes: c02shapes(), shapeOf: map[string]*c02shape{}, byID: map[string]*c02tx{}}
 	for _, s := range e.shapes {
 		e.shapeOf[s.name] = s
@@ -877,7 +878,11 @@ func (t *c02trio) run(prefix [][]*c02tx, lasts [][]*c02tx, reopen bool) {
 		shape = c02blame(prefix[len(prefix)-1], -1)
 	}
 	before := c02dump(t.V)
-	if err := t.V.Reopen(); err != nil {
+	var err error
+	if p := vh.Catch(func() { err = t.V.Reopen() }); p != "" {
+		err = fmt.Errorf("panic: %s", p)
+	}
+	if err != nil {
 		r.Violationf("divergence:reopened:"+shape, c02case{Blocks: t.hist, Reopen: true}, "restart after blocks %v fails: %v", t.hist, err)
 		t.V = nil
 		return
@@ -915,7 +920,7 @@ func TestVerif_C02(t *testing.T) {
 	defer r.Finish()
 	r.Need(C02Validate != nil, "validator hook not installed")
 	e := c02newEnv()
-	r.Rule("transaction alphabet = {ONT transfer, ONG transfer, ONG transferFrom, NeoVM CheckWitness+Notify+Storage.Put via deployed contract, NeoVM CheckWitness+THROWIFNOT, deploy} x 18 signer shapes (every accepted encoding of one P-256 key, SM2, Ed25519, Ethereum-type key, 2-of-3 sorted/unsorted/alt encodings, two signature sets) x payer in {canonical, script-hash address} x from in {canonical, script-hash address} x gas price {2500,0}, + EIP-155 transfer/create/calldata; every validator-accepted transaction as a one-tx block, every ordered pair of a reduced alphabet in one block, block sequences with committed prefixes; each block: V(validated objects, executed twice) vs S(decoded from block bytes) vs R(V restarted); classes = tx kind x outcome, block agreed/diverged/invalid, validator accept/reject")
+	r.Rule("transaction alphabet = {ONT transfer, ONG transfer, ONG transferFrom, NeoVM CheckWitness+Notify+Storage.Put via deployed contract (signer address and zero address), NeoVM CheckWitness+THROWIFNOT, deploy} x 18 signer shapes (every accepted encoding of one P-256 key, SM2, Ed25519, Ethereum-type key, 2-of-3 sorted/unsorted/alt encodings, two signature sets) x payer in {canonical, script-hash address} x from in {canonical, script-hash address} x gas price {2500,0}, + EIP-155 transfer/create/calldata; every validator-accepted transaction as a one-tx block, every ordered pair of a reduced alphabet in one block, block sequences with committed prefixes; each block: V(validated objects, executed twice) vs S(decoded from block bytes) vs R(V restarted); classes = tx kind x outcome, block agreed/diverged/invalid, validator accept/reject")
 	r.Assume("the transaction pool hands the validated *types.Transaction objects to consensus (same process), so a block producer executes objects whose SignedAddr was set by validation.VerifyTransaction; block_sync executes blocks decoded from bytes without the validator")
 	r.Assume("map-iteration order inside the VM/natives is explored by C15 (nd engine), not here; here each block is executed twice on V")
 
@@ -991,7 +996,17 @@ func TestVerif_C02(t *testing.T) {
 			works = append(works, work{[][]*c02tx{{x}}, alphaSingles})
 		}
 	} else {
-		all := append(append([][]*c02tx{}, alphaSingles...), pairs...)
+		// after a committed block: every one-tx block and the two-tx blocks that start with a quick-alphabet symbol
+		inQ := map[*c02tx]bool{}
+		for _, x := range e.seqQ {
+			inQ[x] = true
+		}
+		all := append([][]*c02tx{}, alphaSingles...)
+		for _, pr := range pairs {
+			if inQ[pr[0]] {
+				all = append(all, pr)
+			}
+		}
 		chunk := (len(all) + 3) / 4
 		for _, f := range alpha { // depth 2: one committed block, then every one- and two-tx block
 			for c := 0; c < len(all); c += chunk {
@@ -1062,5 +1077,7 @@ func TestVerif_C02(t *testing.T) {
 		r.NeedClass("ont-transfer:success")
 		r.NeedClass("neo-record:success:witness=true")
 		r.NeedClass("restart:done")
+		r.NeedClass("eip155:success")
+		r.NeedClass("neo-record-zero:success:witness=false")
 	}
 }
